@@ -63,7 +63,10 @@ pub struct Bbr {
 impl Bbr {
     /// Construct a state using the given `config` and current time `now`
     pub fn new(config: Arc<BbrConfig>, current_mtu: u16) -> Self {
-        let initial_window = config.initial_window;
+        // Never start below the minimum window the controller otherwise maintains
+        let initial_window = config
+            .initial_window
+            .max(calculate_min_window(current_mtu as u64));
         Self {
             config,
             current_mtu: current_mtu as u64,
